@@ -53,8 +53,11 @@ func measureGen(r *rand.Rand, n int, tier string, emit func(Case)) {
 			g = l.variant(g)
 		}
 		mk := 0
-		if r.Intn(4) == 0 {
+		switch r.Intn(8) {
+		case 0, 1:
 			mk = 1
+		case 2:
+			mk = 2 // general-position float image: rotation by an arbitrary angle, non-dyadic scale
 		}
 		c := pairCase(l, g, geom.Geometry{}, mk)
 		delete(c, "wb")
@@ -67,7 +70,7 @@ func measureOnPanic(c Case) Event {
 	if _, ok := c["kind"]; ok {
 		return Event{"kind": "sliver", "k": 1, "hu": 1, "wkt": "", "fin": false, "cempty": false, "dxu": 0, "dyu": 0, "areafin": false}
 	}
-	return Event{"g": []*flat{}, "area2": 0, "sarea2": 0, "area2t": 0, "ts": 1, "lenn": 0, "cx": 0, "cy": 0, "cempty": false}
+	return Event{"g": []*flat{}, "area2": 0, "sarea2": 0, "area2t": 0, "ts": 1, "lenn": 0, "cx": 0, "cy": 0, "cempty": false, "gp": false}
 }
 
 func roundInt(v float64) int {
@@ -110,8 +113,9 @@ func measureExec(c Case) Event {
 		g0 = g0.Reverse()
 	}
 	g0 = g0.ForceCoordinatesType(ctypes[c.num("ct")])
-	f, _ := mapOf(c)
+	f, gp := mapOf(c)
 	inv := invOf(c)
+	ev["gp"] = gp
 	s := scaleOf(c)
 	g := imageOf(g0, f)
 	ev["g"] = parts(g0)
